@@ -1,7 +1,7 @@
 (* C16 - apply rules create exactly the matching objects, with or without the name fast path.
    Only the property theorems, each closed by [exact] of a lemma proved under Apply/, each followed
    by Print Assumptions.  Model: Apply/ArModel.v; premises and oracle: Apply/ArObs.v. *)
-From Icv Require Import Base.Tac Apply.ArModel Apply.ArObs Apply.ArProofs Apply.ArOrder Apply.ArWitness Apply.ArFacts.
+From Icv Require Import Base.Tac Apply.ArModel Apply.ArObs Apply.ArProofs Apply.ArOrder Apply.ArWitness Apply.ArFacts Apply.ArForFix.
 From Coq Require Import Permutation.
 Local Open Scope Z_scope.
 
@@ -114,6 +114,15 @@ Theorem C16_for_error_on_unindexed_target_refuted :
   ar_apply ar_w_genv ar_w_inv [ar_w_forerr] = None.
 Proof. exact ar_for_error_refuted. Qed.
 Print Assumptions C16_for_error_on_unindexed_target_refuted.
+
+(* ... and it is confined to rules that are indexed AND have a `for` term: for every rule list in which no indexed
+   rule has one, the premise holds and the indexed load equals plain evaluation unconditionally (what the proposed
+   change of AddRule - a rule with a `for` term is never indexed - would give for every configuration) *)
+Theorem C16_fast_path_load_without_indexed_for : forall genv inv rules,
+  (forall r, In r rules -> ar_rule_index r <> AIRegular -> ar_r_for r = None) ->
+  ar_premises genv inv rules = true /\ ar_apply_fast genv inv rules = ar_apply genv inv rules.
+Proof. exact (fun genv inv rules H => conj (ar_premises_no_indexed_for genv inv rules H) (ar_apply_fast_eq_no_indexed_for genv inv rules H)). Qed.
+Print Assumptions C16_fast_path_load_without_indexed_for.
 
 Theorem C16_api_filter_var_named_like_target_fixed :
   (let f := AEEq ar_w_hostname (AEVar ar_s_host) in
